@@ -37,7 +37,7 @@ func loadKnownFindings() map[string]knownFinding {
 		if line == "" || strings.HasPrefix(line, "#") {
 			continue
 		}
-		// finding: property=C05 id=D3 <text>      |  fixed: property=C08 id=D1 <commit> <text>
+		// finding: property=C05 id=D3 <text>      |  fixed: property=C08 <commit> id=D1 <text>
 		kind, rest, ok := strings.Cut(line, ":")
 		if !ok {
 			continue
